@@ -57,6 +57,7 @@ struct Task<V: Cv> {
 trait Job: Send + Sync {
     fn name(&self) -> String;
     fn cost(&self) -> u64;
+    fn n_inputs(&self) -> usize;
     fn run(&self, thorough: bool, seed: u64, atk: &AtkOpts, only_input: Option<usize>, rep: &mut Report) -> (String, OpStats, AtkStats, u32);
 }
 
@@ -65,7 +66,10 @@ impl<V: Cv> Job for Task<V> {
         self.entry.name()
     }
     fn cost(&self) -> u64 {
-        self.cost * self.inputs.len() as u64
+        self.cost
+    }
+    fn n_inputs(&self) -> usize {
+        self.inputs.len()
     }
     fn run(&self, thorough: bool, seed: u64, atk: &AtkOpts, only_input: Option<usize>, rep: &mut Report) -> (String, OpStats, AtkStats, u32) {
         let name = self.entry.name();
@@ -261,7 +265,9 @@ fn catalogue<V: Cv>(thorough: bool, seed: u64) -> Vec<Task<V>> {
     let pairs_v: Vec<Vec<Val>> = pairs.iter().map(|(p, q)| vec![pv(p), pv(q)]).collect();
 
     push(Op::Assign, "assign", singles_v.clone(), 2, true, false);
-    push(Op::AssignAsPi, "assign_as_public_input", singles_v.clone(), 2, true, false);
+    // Jubjub's assign_as_public_input documents that validity is left to the verifier's
+    // off-circuit check (no curve/subgroup constraint): completeness only there
+    push(Op::AssignAsPi, "assign_as_public_input", singles_v.clone(), 2, foreign, false);
     for (lbl, p) in [("identity", &id), ("generator", &g), ("random", &r0)] {
         push(Op::AssignFixed(p.clone()), &format!("assign_fixed[{lbl}]"), vec![vec![]], 1, true, false);
     }
@@ -590,15 +596,24 @@ fn main() {
     if let Some(f) = ctx.extra.get("only") {
         jobs.retain(|j| j.name().contains(f.as_str()));
     }
-    jobs.sort_by_key(|j| std::cmp::Reverse(j.cost()));
     let seed = ctx.seed;
     let only_idx = only.as_ref().map(|(_, i)| *i).filter(|i| *i != usize::MAX);
-    let parts: Vec<(Report, (String, OpStats, AtkStats, u32), f64)> = jobs
+    // one unit of work per (entry, input): the expensive entries would otherwise serialise the run
+    let mut units: Vec<(usize, usize, u64)> = vec![];
+    for (ji, j) in jobs.iter().enumerate() {
+        for i in 0..j.n_inputs() {
+            if only_idx.map(|x| x == i).unwrap_or(true) {
+                units.push((ji, i, j.cost()));
+            }
+        }
+    }
+    units.sort_by_key(|u| (std::cmp::Reverse(u.2), u.0, u.1));
+    let parts: Vec<(Report, (String, OpStats, AtkStats, u32), f64)> = units
         .par_iter()
-        .map(|j| {
+        .map(|(ji, i, _)| {
             let mut part = rep.fork();
             let t0 = std::time::Instant::now();
-            let r = j.run(thorough, seed, &atk, only_idx, &mut part);
+            let r = jobs[*ji].run(thorough, seed, &atk, Some(*i), &mut part);
             (part, r, t0.elapsed().as_secs_f64())
         })
         .collect();
@@ -610,7 +625,9 @@ fn main() {
         total_atk.add(&a);
         let curve = name.split('/').next().unwrap_or("").to_string();
         let e = per_curve.entry(curve).or_insert((0, 0, 0, 0));
-        e.0 += 1;
+        if !per_op.contains_key(&name) {
+            e.0 += 1;
+        }
         e.1 += st.honest_runs;
         e.2 += st.edits;
         e.3 += a.targets + st.ars_targets;
@@ -622,7 +639,8 @@ fn main() {
                    "driver_ars_targets": merged("driver_ars_targets", st.ars_targets), "driver_ars_nodes": merged("driver_ars_nodes", st.ars_nodes),
                    "attack_targets": merged("attack_targets", a.targets), "attack_nodes": merged("attack_nodes", a.nodes),
                    "candidates_consistent": merged("candidates_consistent", a.cand_consistent), "candidates_bad": merged("candidates_bad", a.cand_bad),
-                   "hint_cells": merged("hint_cells", a.hint_cells), "seconds": (secs * 10.0).round() / 10.0}),
+                   "hint_cells": merged("hint_cells", a.hint_cells),
+                   "cpu_seconds": ((secs + prev.as_ref().and_then(|p| p.get("cpu_seconds")).and_then(|x| x.as_f64()).unwrap_or(0.0)) * 10.0).round() / 10.0}),
         );
     }
     rep.set("per_operation", json!(per_op));
